@@ -204,7 +204,7 @@ class Machine(object):
             if cls is None:
                 return
             kw = {kk: vv for kk, vv in d.items() if kk != "type"}   # values are the caller's nested containers themselves
-            cp = {"x_custom": [1, {"a": [2]}]}
+            cp = {"x_custom": [1, {"a": [2]}], "x_void": {"opts": {}, "tags": [[]]}}
             self.extra.append(cp)
             if op.get("flag"):
                 res, _ = self.guarded_call(k, lambda: cls(custom_properties=cp, **kw), None)
@@ -415,7 +415,11 @@ def case_strategy(draw):
         opts = dict(OPTS)
         if draw(st.booleans()):
             opts["maximal"] = True
-        docs.append(draw(G.valid_object(ver, type_=t, opts=opts)))
+        doc = draw(G.valid_object(ver, type_=t, opts=opts))
+        if doc["type"] not in ("marking-definition", "bundle") and draw(st.integers(0, 3)) == 0:
+            # custom content holding EMPTY containers at several depths (a copy must not share those either)
+            doc["x_hollow"] = draw(st.sampled_from([{}, {"opts": {}, "tags": [[]]}, [[], {}], {"a": {"b": {}}, "c": []}]))
+        docs.append(doc)
         vers.append(ver)
     ops = [{"op": "parse", "a": 0, "flag": True}]
     for _ in range(draw(st.integers(3, 8))):
